@@ -34,7 +34,7 @@ theorem C19_stop_releases (plain tls : Bool) (sched : List LAct)
 
 def isEnding : LifeAct → Option String
   | .cclose id => some id | .rst id => some id | .half id => some id | .quit id => some id | .bad id => some id
-  | .unread id => some id
+  | .unread id => some id | .halfcr id => some id | .halfbulk id => some id
   | _ => none
 
 /-- each ending mode (client close, reset, half request then close, QUIT, malformed frame, pipelined requests left unread) removes exactly
